@@ -146,34 +146,39 @@ package layer
 // A successful Resolve leaves exactly the reference inside the returned layerRef owed (plus the blob reference owned by
 // the layer object when this call created the cached layer); a failed Resolve / resolveBlob leaves nothing owed; closing
 // a layer gives back the blob reference it owns and does not close the shared blob itself.
+// released[f]: the release function f (handed out with a cache reference) has been called. The release function a
+// successful resolveBlob returns inside the blobRef is one that has not been called: the reference it stands for is
+// still held (giving back the reference of the object that is returned -- instead of the stale one -- would let the
+// cache close a blob its new holder is about to use).
 //@ ghost owed int
 //@ ghost blobCloses int
+//@ ghost released map[ref]bool
 //@ func util/cacheutil.(*TTLCache).Get
 //@   trusted
 //@   modifies owed
-//@   ensures ok ==> done != nil && value != nil && owed == old(owed) + 1
+//@   ensures ok ==> done != nil && value != nil && owed == old(owed) + 1 && !released[ref(done)]
 //@   ensures !ok ==> owed == old(owed)
 //@ func util/cacheutil.(*TTLCache).Get#done
-//@   modifies owed
-//@   ensures owed == old(owed) - 1
+//@   modifies owed, released[*]
+//@   ensures owed == old(owed) - 1 && released[ref(fnvalue)] && (forall x ref :: x != ref(fnvalue) ==> released[x] == old(released[x]))
 //@ func util/cacheutil.(*TTLCache).Add
 //@   trusted
 //@   modifies owed
-//@   ensures done != nil && cachedValue != nil && owed == old(owed) + 1 && (added ==> cachedValue == value)
+//@   ensures done != nil && cachedValue != nil && owed == old(owed) + 1 && (added ==> cachedValue == value) && !released[ref(done)]
 //@ func util/cacheutil.(*TTLCache).Add#done
-//@   modifies owed
-//@   ensures owed == old(owed) - 1
+//@   modifies owed, released[*]
+//@   ensures owed == old(owed) - 1 && released[ref(fnvalue)] && (forall x ref :: x != ref(fnvalue) ==> released[x] == old(released[x]))
 //@ func util/cacheutil.(*TTLCache).Remove
 //@   trusted
 //@   ensures true
 //@ type blobRef
 //@   callback done
-//@   modifies owed
-//@   ensures owed == old(owed) - 1
+//@   modifies owed, released[*]
+//@   ensures owed == old(owed) - 1 && released[ref(fnvalue)] && (forall x ref :: x != ref(fnvalue) ==> released[x] == old(released[x]))
 //@ type layerRef
 //@   callback done
-//@   modifies owed
-//@   ensures owed == old(owed) - 1
+//@   modifies owed, released[*]
+//@   ensures owed == old(owed) - 1 && released[ref(fnvalue)] && (forall x ref :: x != ref(fnvalue) ==> released[x] == old(released[x]))
 //@ func interface fs/remote.Blob.Close
 //@   modifies blobCloses
 //@   ensures blobCloses == old(blobCloses) + 1
@@ -189,6 +194,7 @@ package layer
 //@   assume after "r.blobCache.Get(name)" : ok ==> implements(c, "remote.Blob")
 //@   assume after "r.blobCache.Add(name, b)" : implements(cachedB, "remote.Blob")
 //@   ensures[C12] retErr == nil ==> result0 != nil && result0.done != nil && result0.Blob != nil && owed == old(owed) + 1
+//@   ensures[C12] retErr == nil ==> !released[ref(result0.done)]
 //@   ensures[C12] retErr != nil ==> owed == old(owed)
 // newLayer takes ownership of the blob reference (it is released by the layer's close)
 //@ func newLayer
